@@ -300,8 +300,8 @@ fn model(bits: usize, op: Op, args: &[V]) -> Expect {
 
 group_glue!();
 
-const W_Q: &[usize] = &[0, 1, 2, 3, 4, 5, 6, 7, 8, 9, 10, 12, 16, 60, 63, 64, 65, 127, 128, 129, 192, 256, 257];
-const W_T: &[usize] = &[0, 1, 2, 3, 4, 5, 6, 7, 8, 9, 10, 11, 12, 13, 16, 59, 60, 61, 63, 64, 65, 66, 120, 126, 127, 128, 129, 189, 192, 193, 255, 256, 257, 320, 512, 1024];
+const W_Q: &[usize] = &[0, 1, 2, 3, 4, 5, 6, 7, 8, 9, 10, 12, 16, 60, 63, 64, 65, 72, 127, 128, 129, 192, 200, 256, 257];
+const W_T: &[usize] = &[0, 1, 2, 3, 4, 5, 6, 7, 8, 9, 10, 11, 12, 13, 16, 59, 60, 61, 63, 64, 65, 66, 72, 120, 126, 127, 128, 129, 189, 192, 193, 200, 255, 256, 257, 320, 512, 1024];
 
 fn fmt_values(bits: usize, budget: usize) -> Vec<Limbs> {
     let m = pow2(bits);
